@@ -4,8 +4,11 @@ use crate::sut::Sut;
 pub mod c02;
 pub mod c03;
 pub mod c04;
+pub mod c05;
 pub mod c06;
+pub mod c07;
 pub mod c08;
+pub mod c09;
 pub mod c11;
 pub mod c12;
 pub mod c13;
@@ -58,8 +61,11 @@ dispatch! {
     "C02" => c02,
     "C03" => c03,
     "C04" => c04,
+    "C05" => c05,
     "C06" => c06,
+    "C07" => c07,
     "C08" => c08,
+    "C09" => c09,
     "C11" => c11,
     "C12" => c12,
     "C13" => c13,
